@@ -108,8 +108,10 @@ def powCode (base code : Rat) : Option Rat :=
 
 def get (vs : List (String × Str)) (k : String) : Str := ((vs.find? (·.1 = k)).map (·.2)).getD []
 
-/-- `_parse_position` on the fields of a `P` line -/
-def parsePosition (F : Factors) (m : Meta) (e : Epoch) (vs : List (String × Str)) : Option Entry := do
+/-- the values `_parse_position` computes from the fields of a `P` line:
+(satellite, position [m], clock [m], position sigmas [m], clock sigma [m]) -/
+def positionCore (F : Factors) (m : Meta) (vs : List (String × Str)) :
+    Option (Str × List (Option Rat) × Option Rat × List (Option Rat) × Option Rat) := do
   let version ← match mget m "version" with | some (.str v) => some v | _ => Option.none
   let sat := if version = ['a'] then 'G' :: zfill 2 (get vs "sat") else get vs "sat"
   let basePos ← match mget m "base_posvel" with | some (.num q) => some q | _ => Option.none
@@ -123,7 +125,11 @@ def parsePosition (F : Factors) (m : Meta) (e : Epoch) (vs : List (String × Str
     else (parseFloat (get vs k)).bind fun code => (powCode base code).map fun p => some (p * unit)
   let ps ← ["sig_pos_x", "sig_pos_y", "sig_pos_z"].mapM fun k => sig k basePos F.mm2m
   let cs ← sig "sig_clk_bias" baseClk (F.ps2s * F.c)
-  pure ⟨e, sat, pos, clk, ps, cs, sat.take 1⟩
+  pure (sat, pos, clk, ps, cs)
+
+/-- `_parse_position`: the entry appended for a `P` line of the epoch `e` -/
+def parsePosition (F : Factors) (m : Meta) (e : Epoch) (vs : List (String × Str)) : Option Entry :=
+  (positionCore F m vs).map fun (sat, pos, clk, ps, cs) => ⟨e, sat, pos, clk, ps, cs, sat.take 1⟩
 
 /-- one line of an epoch block after the `*` line.  `second = true` for the block's second line
 (`cache["line_num"] == 2`), where an epoch that is already in `data["time"]` makes the parser drop
